@@ -2,14 +2,14 @@
 // ==== indentation inserted by concrete writers abstracted away) and the trait-level contracts of write / write_for.
 // ==== The `spec fn out` line is inserted into the real trait by the inline rewrite in printer_ops_base (ghost only).
 //@ contract sourcemap_writer::writer ::fn write
-//@   ensures [wm.write] final(self).out() == old(self).out() + chunk@
+//@   ensures [assumed.wm.write] final(self).out() == old(self).out() + chunk@
 //@ end
 //@ contract sourcemap_writer::writer ::fn write_for
-//@   ensures [wm.write_for] final(self).out() == old(self).out() + chunk@
+//@   ensures [assumed.wm.write_for] final(self).out() == old(self).out() + chunk@
 //@ end
 //@ contract sourcemap_writer::writer ::fn indent
-//@   ensures [wm.indent] final(self).out() == old(self).out()
+//@   ensures [assumed.wm.indent] final(self).out() == old(self).out()
 //@ end
 //@ contract sourcemap_writer::writer ::fn dedent
-//@   ensures [wm.dedent] final(self).out() == old(self).out()
+//@   ensures [assumed.wm.dedent] final(self).out() == old(self).out()
 //@ end
